@@ -35,6 +35,7 @@ func runC06(c *Ctx) {
 	c06NeedMore(c)
 	c06WindowFixed(c)
 	c06LocatorBounds(c)
+	c06CryptoMergeSkipsOverlap(c)
 }
 
 func c06Restore(c *Ctx) {
